@@ -193,3 +193,9 @@ def _internalnames(clause, replay, ctx):
     w = (replay or {}).get("world") or {}
     bad = {"OVLD", "KWARGS", "TARGS", "MISSING"}
     return clause.startswith("C03:") and any(bad & (set(m.get("kwn", [])) | set(m.get("names") or [])) for m in w.get("methods", []))
+
+
+@matcher("fnextself")
+def _fnextself(clause, replay, ctx):
+    """The curated class whose K2 method delegates with self.f.next(x)."""
+    return clause.startswith("C07:") and bool(ctx.get("fnext_self"))
